@@ -105,6 +105,7 @@ def build_lean(timeout=1500) -> str:
     with open(lock, "w") as fh:
         fcntl.flock(fh, fcntl.LOCK_EX)
         try:
+            subprocess.run([sys.executable, str(VERIF / "tools" / "gen_lean_index.py")], check=True)
             p = subprocess.run(
                 ["lake", "build"], cwd=LEAN, capture_output=True, text=True, timeout=timeout, env=_lake_env()
             )
